@@ -182,7 +182,27 @@ pub fn deinline_opt(
         })
         .collect();
 
-    for (_, function_set) in root_set_to_inline_tree.iter() {
+    // The search below is greedy, so its result depends on the order in which
+    // flips are tried.  Visit the trees, and the functions in each tree, in
+    // helper declaration order rather than in hash iteration order, which
+    // differs from process to process.
+    let index_of = |f: &Vec<u8>| helper_to_index.get(f).copied().unwrap_or(usize::MAX);
+    let mut inline_trees: Vec<Vec<Vec<u8>>> = root_set_to_inline_tree
+        .values()
+        .map(|function_set| {
+            let mut functions: Vec<Vec<u8>> = function_set.iter().cloned().collect();
+            functions.sort_by_key(|f| (index_of(f), f.clone()));
+            functions
+        })
+        .collect();
+    inline_trees.sort_by_key(|tree| {
+        (
+            tree.iter().map(index_of).collect::<Vec<usize>>(),
+            tree.clone(),
+        )
+    });
+
+    for function_set in inline_trees.iter() {
         loop {
             let start_metric = metric;
 
